@@ -357,13 +357,17 @@ def handle : Handler := fun s =>
     let fixedAgrees (fx : Cmp.Fixes) : Bool :=
       let tf := compileWith fx p
       (firstDiffAll (fun c s => view c (shape tf c.script c.lang c.feats c.alt s)) fSrc combos).isNone
+    -- the real compiler behaves like the model with one of the repairs of the anonymous lookups undone
+    let realLike (fx : Cmp.Fixes) : Bool :=
+      let tf := compileWith fx p
+      (firstDiffAll (fun c s => view c (shape tf c.script c.lang c.feats c.alt s)) fReal combos).isNone
     let attribution : String :=
       if oracle then ""
-      else if !corr then "shape-differs-from-source-semantics"
-      else if fixedAgrees { anonSingle := true } then "anon-single-clobber"
-      else if fixedAgrees { anonLig := true } then "anon-lig-split"
-      else if fixedAgrees { anonLigPrefix := true } then "anon-lig-pooled-longer"
-      else if fixedAgrees { anonSingle := true, anonLig := true, anonLigPrefix := true } then "anon-several-defects"
+      else if !corr && realLike { anonLig := true, anonLigPrefix := true } then "anon-single-clobber"
+      else if !corr && realLike { anonSingle := true, anonLigPrefix := true } then "anon-lig-split"
+      else if !corr && realLike { anonSingle := true, anonLig := true } then "anon-lig-pooled-longer"
+      else if !corr && realLike {} then "anon-several-defects"
+      else if fixedAgrees Cmp.Fixes.all && !corr then "shape-differs-from-source-semantics"
       else
         -- programs outside the modelled subset (only the advisory stream generates them)
         match wf.filter (fun w => !w.startsWith "anon-") with
